@@ -361,6 +361,12 @@ func (lg *ledger) key(v ssa.Value) string {
 					k = lg.key(sv) // a write-once variable of the enclosing function
 				}
 			}
+			// a package variable that only its initialiser writes and that holds a reflect.Type: that type
+			if g, ok := x.X.(*ssa.Global); ok && g.Pkg != nil && namedIs(x.Type(), "reflect", "Type") {
+				if st := lg.w.globalInitStore(g); st != nil {
+					k = lg.key(st.Val)
+				}
+			}
 			// loads of a field of the receiver/parameter: stable if never stored in this function
 			if fa, ok := x.X.(*ssa.FieldAddr); ok {
 				// equal to every other load of the same field that no store can precede
@@ -3158,4 +3164,52 @@ func (w *World) variadicParam(prm *ssa.Parameter, depth int) bool {
 	}
 	res = true
 	return true
+}
+
+// staticRTypeOf: c is reflect.TypeOf(x) or reflect.ValueOf(x).Type() with x of a concrete static type: that type.
+func staticRTypeOf(c *ssa.Call) types.Type {
+	var operand ssa.Value
+	if a, ok := reflectFunc(c, "TypeOf"); ok && len(a) == 1 {
+		operand = a[0]
+	} else if recv, _, ok := reflectValueCall(c, "Type"); ok {
+		if a, ok := reflectFunc(throughCell(recv), "ValueOf"); ok && len(a) == 1 {
+			operand = a[0]
+		}
+	}
+	if operand == nil {
+		return nil
+	}
+	if mi, ok := throughCell(operand).(*ssa.MakeInterface); ok && !types.IsInterface(mi.X.Type()) {
+		return mi.X.Type()
+	}
+	return nil
+}
+
+// rtypeKey: a canonical name for the reflect.Type value v when the type it describes is known statically:
+// reflect.TypeOf(x) / reflect.ValueOf(x).Type() with x concrete, or a package variable initialised with one.
+func (lg *ledger) rtypeKey(v ssa.Value) string {
+	v = throughCell(v)
+	switch x := v.(type) {
+	case *ssa.Call:
+		if st := staticRTypeOf(x); st != nil {
+			return "rtype(" + types.TypeString(st, nil) + ")"
+		}
+	case *ssa.UnOp:
+		if g, ok := x.X.(*ssa.Global); ok && x.Op == token.MUL && g.Pkg != nil && namedIs(x.Type(), "reflect", "Type") {
+			if st := lg.w.globalInitStore(g); st != nil {
+				return lg.rtypeKey(st.Val)
+			}
+		}
+	}
+	return ""
+}
+
+// rtypeKeyOfValue: the same for the type of the reflect.Value v (reflect.ValueOf(x) with x concrete).
+func (lg *ledger) rtypeKeyOfValue(v ssa.Value) string {
+	if a, ok := reflectFunc(throughCell(v), "ValueOf"); ok && len(a) == 1 {
+		if mi, ok := throughCell(a[0]).(*ssa.MakeInterface); ok && !types.IsInterface(mi.X.Type()) {
+			return "rtype(" + types.TypeString(mi.X.Type(), nil) + ")"
+		}
+	}
+	return ""
 }
